@@ -23,6 +23,11 @@ array used by many calls (R7); see `build_input` and the `o_*` oracles below.
 Third round: argument forms (R8: positional / keyword / defaults, `call_form`),
 heterogeneous element types inside one gain collection (R10), result and
 arguments used and overwritten after the call (R13), 257 .. 65537 channels (R14).
+Fourth round: distinct values that are merely close (R15: tiny magnitudes, relative 1e-6..1e-8, adjacent
+doubles, beyond the 12th decimal, total power a hair off a threshold - histories of such calls compared
+with the exact rational solution at 1e-12 / bit for bit, `o_close`) and argument identity / buffer reuse
+(R16: one gain buffer refilled in place, one object in several roles, `play_reuse`; the in-history
+results also against the model's history function through the driver line `hist`).
 """
 import json
 import math
@@ -39,7 +44,7 @@ RTOL = 1e-9
 
 CLAIM = {
     'technique': 'Lean 4 proof about an executable model + exact-rational differential correspondence',
-    'text': 'Proved in Lean (26 theorems, any vector length, arbitrary linear ordered field; optimality over R): '
+    'text': 'Proved in Lean (35 theorems, any vector length, arbitrary linear ordered field; optimality over R): '
             'for every non-empty vector of positive gains, P > 0, N > 0, Es > 0 and EVERY argsort result '
             'satisfying the sort contract (any tie order), the model of doWF returns a value; the allocation has '
             'one entry per channel, is non-negative, sums to P, equals max(0, mu - N/(Es g_i)) for the returned '
@@ -87,7 +92,33 @@ CLAIM = {
             'rational model needs minutes there). Not applicable: R9 (doWF takes no index or count argument), '
             'R11 (no object, no query methods: the only entry point is the pure function, whose '
             'non-interference is R3/R7/R13), R12 (no dict/set/named container; the order of the channels is '
-            'covered by the permutation-equivariance clause, theorem wf_perm_equivariant). No new finding.',
+            'covered by the permutation-equivariance clause, theorem wf_perm_equivariant). No new finding. '
+            'Fourth round: R15 (distinct values that are merely close) - THEOREMS wf_exact_in_power (P < P\' '
+            'gives a strictly higher level and another allocation), wf_exact_in_noise, wf_exact_in_energy, '
+            'wf_exact_in_used_gain (a gain of a channel in use), wf_close_values_not_identified (doWF g P N Es = '
+            'doWF g P\' N\' Es\' only if P = P\' and N/Es = N\'/Es\'): over any ordered field the result is a '
+            'function of the exact values, nothing is identified by a tolerance; the code has no lookup / cache '
+            '/ unchanged test - the places where a value decides are the loop test and the sort. Oracle doWF.close: '
+            'histories of 2-4 calls whose arguments differ by factors below 1e-8 absolute (noise 4e-12 / 4e-13, '
+            'gains 3e-10 / 1e-12 / 5e-15 in one vector), by a relative 1e-6..1e-8 (2.4e9 vs 2.4e9+2e4, also '
+            'inside one gain vector with the power below / above their separation), by one ulp, beyond the '
+            '12th decimal, or P = T_k(1 +- 1e-6..3e-9) around a threshold; every call against the exact '
+            'rational water-filling solution of its own values at 1e-12 of max(P, best level, mu) (the code\'s '
+            'own error is about 1 ulp of that), bit for bit where binary64 evaluation is exact in any order '
+            '(gains and Es powers of two, all values on one 53-bit grid, no loop test within 1e-9 of a tie); '
+            'every call also through the correspondence (kept count compared when the model\'s margin allows). '
+            'R16 (argument identity and buffer reuse) - THEOREMS about the model of a caller that refills one '
+            'buffer (Model/C12.lean runOps / callArgs / bufAfter): wf_history_results (k-th result = doWF of the '
+            'contents at call time), wf_history_append (later refills and calls leave earlier results alone), '
+            'wf_equal_contents_same_result (equal contents, one value in several roles), '
+            'wf_driver_history_instance; the driver line hist runs runOpsRat. Oracle doWF.reuse: ONE gain '
+            'buffer (float64, strided view, int64, python list; one array object per length) refilled in place '
+            'before each of 2-4 calls (new contents, a permutation with the same sum and first element, one '
+            'element, earlier contents again, another length), scalars as floats / preallocated refilled 0-d '
+            'arrays / ONE 0-d array as P and N and Es / P a 0-d view into the gain buffer, arguments overwritten '
+            'right after the call, no other call in between: each result = exact solution of the contents '
+            '(1e-9) = bit for bit the call on fresh copies, arguments unchanged, no aliasing, earlier results '
+            'unchanged; in-history results compared with the model history. No new finding.',
 }
 
 
@@ -1569,11 +1600,13 @@ def r15_oracles(ctx, hists):
 def play_reuse(case, records=None):
     """R16: ONE preallocated gain buffer (ndarray / strided view / integer array / python list) refilled in
     place before every call of a 2-4 call history - with new contents, a permutation of the old ones, one
-    changed element, earlier contents again, another length (a shorter view of the same base) - the scalar
-    arguments as python floats, as 0-d arrays that are themselves preallocated and refilled, or as ONE 0-d
-    array handed over in two or three roles; the arguments are scribbled over right after the call.
-    Every call must return, bit for bit, what a call on fresh copies of the contents returns, that must be
-    the exact water-filling solution of the contents (1e-9), and no earlier result may change."""
+    changed element, earlier contents again, another length (one persistent shorter view of the same base) -
+    the scalar arguments as python floats, as 0-d arrays that are themselves preallocated and refilled, or
+    as ONE 0-d array handed over in two or three roles; the arguments are scribbled over right after the
+    call.  Nothing else is called between the calls of the history (a one-entry memo would be evicted).
+    Every call must return the exact water-filling solution of the contents at call time (1e-9) and, bit
+    for bit, what a call on fresh copies of the contents returns (made after the history); no earlier
+    result may change; no argument may be modified; no result may alias an argument or another result."""
     steps = case['steps']
     bk = case.get('buffer', 'ndarray')
     sk = case.get('scalars', 'py')
@@ -1586,21 +1619,37 @@ def play_reuse(case, records=None):
         base = whole = [0.0] * nmax
     else:
         base = whole = np.full(nmax, 7, dtype=dt)
+    views = {nmax: whole}                                        # ONE array object per length, kept for the whole history
     zs = {k: np.array(0.0) for k in ('P', 'N', 'Es')}           # preallocated 0-d arrays (sk = '0d-reused')
     shared = np.array(0.0)                                       # ONE 0-d array for several roles
-    kept = []                                                    # (result objects, copies taken at once)
+    kept = []                                                    # (result objects, copy taken at once, step data)
+
+    def cls(check, st):
+        return 'R16:%s:%s%s' % (check, bk, ':one-object-in-several-roles' if st.get('roles') else
+                                ':0d-reused' if sk == '0d-reused' else '')
+
+    def unchanged(upto, st):
+        for j, (old, cp, cmu, _, _) in enumerate(kept):
+            if not np.array_equal(np.asarray(old[0]), cp) or float(np.asarray(old[1], dtype=float).reshape(-1)[0]) != cmu:
+                return cls('earlier-result-changed', st), 'the result of call %d changed after %s' % (j + 1, upto)
+        return None
+
     for i, st in enumerate(steps):
         vals = [float(x) for x in st['g']]
         n = len(vals)
-        kind = 'R16:%s:%s:%s' % (bk, sk if not st.get('roles') else 'roles=' + '+'.join(st['roles']), st.get('mode', 'new'))
         if bk == 'list':
             whole[:] = vals                                      # the same list object, new contents (and length)
             buf = whole
         else:
-            buf = whole[:n]                                      # the same base array (a view when n < nmax)
+            if n not in views:
+                views[n] = whole[:n]
+            buf = views[n]                                       # the same array object as in every earlier step of this length
             buf[...] = np.array(vals, dtype=dt)
             if not np.array_equal(np.asarray(buf, dtype=float), np.array(vals)):
                 raise core.Infra('buffer of kind %s cannot hold %r' % (bk, vals))
+        r = unchanged('the refill before call %d' % (i + 1), st)
+        if r is not None:
+            return r
         sc = {k: float(st[k]) for k in ('P', 'N', 'Es')}
         args = dict(sc)
         if sk == '0d-reused':
@@ -1622,39 +1671,33 @@ def play_reuse(case, records=None):
             for k in roles:
                 args[k] = shared                                 # the SAME object in every listed role
         before = (list(buf) if bk == 'list' else snapshot(buf), [snapshot(args[k]) for k in ('P', 'N', 'Es')])
+        what = 'call %d on the refilled buffer %r (P=%r N=%r Es=%r)' % (i + 1, vals, sc['P'], sc['N'], sc['Es'])
         try:
             res = call_raw((buf, args['P'], args['N'], args['Es']))
         except Exception as e:
-            return kind, 'call %d raises %r' % (i + 1, e)
+            return cls('raises', st), '%s raises %r' % (what, e)
         after = (list(buf) if bk == 'list' else snapshot(buf), [snapshot(args[k]) for k in ('P', 'N', 'Es')])
         if after != before:
-            return kind, 'call %d modified an argument' % (i + 1)
+            return cls('argument-modified', st), '%s modified an argument' % what
         p, mu = res
         if isinstance(p, np.ndarray) and (
                 (bk != 'list' and np.shares_memory(p, base)) or any(np.shares_memory(p, z) for z in list(zs.values()) + [shared])):
-            return kind, 'call %d returned an allocation that shares memory with an argument' % (i + 1)
-        for j, (old, cp, cmu) in enumerate(kept):
+            return cls('result-aliases-argument', st), '%s returned an allocation that shares memory with an argument' % what
+        for j, (old, _, _, _, _) in enumerate(kept):
             if isinstance(p, np.ndarray) and isinstance(old[0], np.ndarray) and np.shares_memory(p, old[0]):
-                return kind, 'calls %d and %d returned overlapping buffers' % (j + 1, i + 1)
-        fresh_g = list(vals) if bk == 'list' else np.array(vals, dtype=dt)
-        fresh = call_raw((fresh_g, sc['P'], sc['N'], sc['Es']))
+                return cls('results-share-memory', st), 'calls %d and %d returned overlapping buffers' % (j + 1, i + 1)
         pa, ma = np.asarray(p, dtype=float), float(np.asarray(mu, dtype=float).reshape(-1)[0])
-        if pa.shape != np.asarray(fresh[0]).shape or not np.array_equal(pa, np.asarray(fresh[0], dtype=float)) \
-                or ma != float(fresh[1]):
-            return kind, 'call %d on the refilled buffer %r (P=%r N=%r Es=%r) returned p=%r mu=%r, a call on a fresh ' \
-                         'copy of the contents p=%r mu=%r' % (i + 1, vals, sc['P'], sc['N'], sc['Es'], pa.tolist(), ma,
-                                                              np.asarray(fresh[0]).tolist(), float(fresh[1]))
         ep, emu, _, _ = exact_wf(vals, sc['P'], sc['N'], sc['Es'])
         scale = max(Fraction(sc['P']), min(Fraction(sc['N']) / (Fraction(sc['Es']) * Fraction(x)) for x in vals), emu)
         tol = Fraction(RTOL) * scale
         if pa.shape != (n,) or not np.all(np.isfinite(pa)) or \
                 any(abs(Fraction(float(x)) - y) > tol for x, y in zip(pa, ep)) or abs(Fraction(ma) - emu) > tol:
-            return kind, 'call %d on the refilled buffer %r (P=%r N=%r Es=%r) returned p=%r mu=%r, the solution for ' \
-                         'the contents is p=%r mu=%r' % (i + 1, vals, sc['P'], sc['N'], sc['Es'], pa.tolist(), ma,
-                                                         [float(y) for y in ep], float(emu))
+            return cls('not-the-solution-for-the-contents:refill=' + st.get('mode', 'new'), st), \
+                '%s returned p=%r mu=%r, the solution for the contents is p=%r mu=%r' % (
+                    what, pa.tolist(), ma, [float(y) for y in ep], float(emu))
         if records is not None:
             records.append(({'g': vals, 'P': sc['P'], 'N': sc['N'], 'Es': sc['Es']}, (pa.copy(), ma)))
-        kept.append(((p, mu), np.array(p, copy=True), ma))
+        kept.append(((p, mu), np.array(p, copy=True), ma, (vals, sc), st))
         if st.get('scribble', True):                             # (iii) arguments modified right after the call
             if bk == 'list':
                 whole[:] = [-7.0] * len(whole)
@@ -1662,9 +1705,22 @@ def play_reuse(case, records=None):
                 whole[...] = 5
             for z in list(zs.values()) + [shared]:
                 z[...] = -1.0
-        for j, (old, cp, cmu) in enumerate(kept):
-            if not np.array_equal(np.asarray(old[0]), cp) or float(np.asarray(old[1], dtype=float).reshape(-1)[0]) != cmu:
-                return kind, 'the result of call %d changed after call %d / the refill that followed' % (j + 1, i + 1)
+            r = unchanged('the arguments of call %d were overwritten' % (i + 1), st)
+            if r is not None:
+                return r
+    # (iv) after the history: equal contents in fresh objects give bit for bit the same results
+    for j, (old, cp, cmu, (vals, sc), st) in enumerate(kept):
+        fresh_g = list(vals) if bk == 'list' else np.array(vals, dtype=dt)
+        fresh = call_raw((fresh_g, sc['P'], sc['N'], sc['Es']))
+        if cp.shape != np.asarray(fresh[0]).shape or not np.array_equal(cp, np.asarray(fresh[0], dtype=float)) \
+                or cmu != float(fresh[1]):
+            return cls('differs-from-fresh-objects', st), \
+                'call %d on the refilled buffer %r (P=%r N=%r Es=%r) returned p=%r mu=%r, a call on fresh copies of ' \
+                'the contents p=%r mu=%r' % (j + 1, vals, sc['P'], sc['N'], sc['Es'], cp.tolist(), cmu,
+                                             np.asarray(fresh[0]).tolist(), float(fresh[1]))
+        r = unchanged('the fresh call %d' % (j + 1), st)
+        if r is not None:
+            return r
     return None
 
 
@@ -1880,7 +1936,9 @@ def check(ctx):
                 'sizes and values, R6 inputs scaled by 1e-12..1e12 (all through correspondence and the standard '
                 'oracles), plus the R1-R4/R6/R7 twin, immutability, rejected-call, rescaling and shared-array oracles; R8 call forms '
                 '(keyword / mixed / defaults), R10 mixed-type element collections, R13 derived/overwritten arrays, R14 '
-                '257..4097 channels against the model and 65537 channels against the oracles. '
+                '257..4097 channels against the model and 65537 channels against the oracles; R15 histories of '
+                'close-but-distinct arguments (17 fixed + 150 / 3000 random, 5 kinds x parameter) against the exact '
+                'rational solution; R16 histories on one refilled argument buffer (6 fixed + 120 / 2400 random). '
                 'non-trivial = distinct input with >= 2 channels')
     quick = ctx.tier == 'quick'
     n_rand, n_dyadic, nmax, n_big = (3000, 1000, 64, 0) if quick else (20000, 10000, 128, 600)
@@ -1947,3 +2005,6 @@ def search(ctx):
         cases.append(c)
     cases += [gen_dyadic(ctx.rng, 6) for _ in range(1000)]
     oracles(ctx, cases)
+    r15_oracles(ctx, [json.loads(json.dumps(h)) for h in R15_FIXED] + gen_r15(ctx.rng, 600))
+    for h in [json.loads(json.dumps(h)) for h in R16_FIXED] + gen_r16(ctx.rng, 400):
+        run_oracle(ctx, 'doWF.reuse', h)
